@@ -27,7 +27,10 @@ def build(work):
             open(os.path.join(d, 'src', f), 'w').write(s)
     shutil.copy(os.path.join(tpl, 'lib.rs'), os.path.join(d, 'src', 'lib.rs'))
     shutil.copy(os.path.join(tpl, 'Cargo.toml'), os.path.join(d, 'Cargo.toml'))
-    shutil.copy(os.path.join(REPO, 'Cargo.lock'), os.path.join(d, 'Cargo.lock'))
+    for lock in (os.path.join(REPO, 'Cargo.lock'), '/repo/Cargo.lock'):
+        if os.path.exists(lock):
+            shutil.copy(lock, os.path.join(d, 'Cargo.lock'))
+            break
     for f in ('hunter.rs', 'oracle.rs'):
         shutil.copy(os.path.join(tpl, f), os.path.join(d, 'hunter', f))
     env = dict(os.environ); env['CARGO_NET_OFFLINE'] = 'true'; env['CARGO_TARGET_DIR'] = os.path.join(d, 'target')
@@ -35,7 +38,8 @@ def build(work):
     p = subprocess.run(['cargo', 'build', '--release', '--offline', '--bin', 'hunter'], cwd=d, capture_output=True, text=True, env=env)
     if p.returncode != 0:
         # the lock file of the repository lists more packages than this crate uses; let cargo prune it
-        os.remove(os.path.join(d, 'Cargo.lock'))
+        if os.path.exists(os.path.join(d, 'Cargo.lock')):
+            os.remove(os.path.join(d, 'Cargo.lock'))
         p = subprocess.run(['cargo', 'build', '--release', '--offline', '--bin', 'hunter'], cwd=d, capture_output=True, text=True, env=env)
     if p.returncode != 0:
         log('hunter: replay crate does not build (%s)' % p.stderr[-800:])
